@@ -187,3 +187,27 @@ prop("C14",
      explanation="Board::master_reset leaves comparator bits stale until the next update (outside this property's alphabet; noted under C07)",
      assumptions=["IEEE-754 binary32 arithmetic of rustc for `/` and `*` (modelled by the soft-float, cross-checked on all 256 table entries every run)"],
      )
+
+prop("C02",
+     modules=["Emu2a.Props.C02"],
+     theorems=["Emu2a.C02.compile_eq_ref", "Emu2a.C02.bols_encode", "Emu2a.C02.bols_length", "Emu2a.C02.fold_ok",
+               "Emu2a.C02.push_ok", "Emu2a.C02.push_error", "Emu2a.C02.compile_error", "Emu2a.C02.resolve_lines",
+               "Emu2a.C02.image_concat"],
+     harness="c02",
+     level_text="Lean refinement theorem compile_eq_ref: the one-pass translator with label placeholders (model of compiler.rs: 8-bit address counter, ByteOrLabel/LabelFn placeholders, final substitution, last-definition-wins table keyed by lower-cased names) produces exactly the two-pass reference assembly (pass 1: layout from address 0 and symbol table; pass 2: documented encoding per instruction form with mode/register fields, operand bytes, big-endian .DW, zero fill for .ORG/.BYTE, relative offset target-(addr+2) mod 256, settings) for every program whose lines are shorter than 256 bytes; bols_encode / bols_length cover every instruction form and operand shape by case analysis. The model is tied to the Rust translator by differential runs on generated programs (the AST is serialised from the real parser's output), and the real byte code is compared with the reference directly",
+     technique="Lean 4 refinement proof (fold invariant over lines, case analysis over all instruction forms) + differential compile on generated programs against model and reference assembler",
+     rule="generated (AST, text) pairs: random instruction forms x operand shapes x registers, directives (.ORG forward, .BYTE, .DB, .DW, .EQU, *STACKSIZE, *PROGRAMSIZE), forward/backward/mixed-case label references, later redefinitions; text rendered with random case, blanks, radix and leading zeros; the real parser's AST must equal the generated AST, then `compile` (model) and `spec.encode` (reference) are compared with the real Translator::compile output line by line; distinct = distinct serialised ASTs",
+     explanation="the encoder is not yet checked against the CPU's decoder by a theorem (Isa.exec of the encoded bytes); that link is exercised by C01's search on assembled programs only",
+     assumptions=["programs whose image fits the 240-byte RAM (the property's quantifier)"],
+     )
+
+prop("C06",
+     modules=["Emu2a.Props.C02"],
+     theorems=["Emu2a.C02.compile_error", "Emu2a.C02.push_error", "Emu2a.C02.push_ok", "Emu2a.C02.bols_length"],
+     harness="c06",
+     level_text="Lean theorems on the translator model with Rust panics as explicit outcomes: compile_error (translation fails only by `.ORG` below the current address, overflow of the 8-bit address counter, or an undefined label at substitution), push_error/push_ok (exact conditions per line); DEC with every operand shape is total (bols_encode covers it). The two remaining panic classes are genuine defects recorded as known findings (backward .ORG; image larger than 240/255 bytes); any other panic, or one of these on a program outside its class (the model predicts the class for every generated program), is reported. That an accepted program never hits the undefined-label panic (the parser's reference check covers exactly the translator's lookups, case-insensitively) is established by the harness, not yet by a theorem",
+     technique="Lean 4 panic-outcome model of the translator with exact failure characterisation + differential compile-and-load under catch_unwind on generated and directed programs, known-findings filter",
+     rule="generated accepted programs (incl. backward .ORG in a fifth, oversize images in a quarter), directed: images of every size 0..300, .ORG to 14 targets from 7 positions, labels referenced in other letter cases through JR/JMP/CALL/JCS/LD/LDSP/DEC/MOV/.EQU, DEC with every operand shape; each is parsed by the real parser, compiled and loaded under catch_unwind, the panic site is classified from the panic message; `compileload` = model prediction, `spec.c06` = must be ok; distinct = distinct serialised ASTs",
+     explanation="KNOWN FINDINGS (see known_findings.txt): backward .ORG, image > 240 bytes, image > 255 bytes",
+     assumptions=["harness built with overflow checks on (the release binary wraps the address counter silently instead of panicking)"],
+     )
